@@ -9,6 +9,7 @@ mod c09;
 mod c10;
 mod c10_conn;
 mod c11;
+mod c12;
 mod c14;
 mod c18;
 mod sinkwalk;
@@ -25,6 +26,7 @@ pub fn run(opts: &Opts) -> i32 {
         "C06" => c06::run(opts),
         "C09" => c09::run(opts),
         "C11" => c11::run(opts),
+        "C12" => c12::run(opts),
         "C13" => walkprops::run(opts, "C13"),
         "C10" => c10::run(opts),
         "C14" => c14::run(opts),
